@@ -38,15 +38,28 @@ Proof.
   assert (b * rne a b <= b * (-1)) by (apply Z.mul_le_mono_nonneg_l; lia). lia.
 Qed.
 
+(* q = n from b*(2n-1) < b*(2q+1) and b*(2q) < b*(2n+1), all products of b being atoms for lia *)
+Lemma sandwich_eq b q n : 0 < b -> b * (2 * n - 1) < b * (2 * q + 1) -> b * (2 * q) < b * (2 * n + 1) -> q = n.
+Proof.
+  intros Hb H1 H2. apply Z.mul_lt_mono_pos_l in H1; [|exact Hb]. apply Z.mul_lt_mono_pos_l in H2; [|exact Hb]. lia.
+Qed.
+
 (* strictly inside (n - 1/2, n + 1/2) *)
 Lemma rne_inside a b n :
   0 < b -> 0 <= a -> b * (2 * n - 1) < 2 * a < b * (2 * n + 1) -> rne a b = n.
 Proof.
   intros Hb Ha H. destruct (rne_cases a b Hb Ha) as (E & Hr & Hq & ->).
   set (q := a / b) in *. set (r := a mod b) in *.
-  destruct (2 * r <? b) eqn:E1; [apply Z.ltb_lt in E1; nia|apply Z.ltb_ge in E1].
-  destruct (b <? 2 * r) eqn:E2; [apply Z.ltb_lt in E2; nia|apply Z.ltb_ge in E2].
-  exfalso. assert (2 * r = b) by lia. nia.
+  destruct (2 * r <? b) eqn:E1; [apply Z.ltb_lt in E1|apply Z.ltb_ge in E1].
+  { apply (sandwich_eq b); [exact Hb|lia|lia]. }
+  destruct (b <? 2 * r) eqn:E2; [apply Z.ltb_lt in E2|apply Z.ltb_ge in E2].
+  { assert (H1 : b * q < b * n) by lia.
+    assert (H2 : b * (2 * n) < b * (2 * q + 3)) by lia.
+    apply Z.mul_lt_mono_pos_l in H1; [|exact Hb]. apply Z.mul_lt_mono_pos_l in H2; [|exact Hb]. lia. }
+  exfalso. assert (Hrb : 2 * r = b) by lia.
+  assert (H1 : b * (2 * n - 1) < b * (2 * q + 1)) by lia.
+  assert (H2 : b * (2 * q + 1) < b * (2 * n + 1)) by lia.
+  apply Z.mul_lt_mono_pos_l in H1; [|exact Hb]. apply Z.mul_lt_mono_pos_l in H2; [|exact Hb]. lia.
 Qed.
 
 (* exactly n - 1/2 or n + 1/2 with n even *)
@@ -55,10 +68,14 @@ Lemma rne_tie_below a b n :
 Proof.
   intros Hb Ha H He. destruct (rne_cases a b Hb Ha) as (E & Hr & Hq & ->).
   set (q := a / b) in *. set (r := a mod b) in *.
-  assert (q = n - 1 /\ 2 * r = b) as [Hqn Hrb] by nia.
+  assert (Hqn : q = n - 1).
+  { assert (H1 : b * (2 * q) <= b * (2 * n - 1)) by lia.
+    assert (H2 : b * (2 * n - 3) < b * (2 * q + 1)) by lia.
+    apply Z.mul_le_mono_pos_l in H1; [|exact Hb]. apply Z.mul_lt_mono_pos_l in H2; [|exact Hb]. lia. }
+  assert (Hrb : 2 * r = b) by (subst q; lia).
   destruct (2 * r <? b) eqn:E1; [apply Z.ltb_lt in E1; lia|].
   destruct (b <? 2 * r) eqn:E2; [apply Z.ltb_lt in E2; lia|].
-  replace q with (n - 1) by lia.
+  rewrite Hqn.
   replace (Z.even (n - 1)) with false; [lia|].
   symmetry. rewrite Z.even_sub, He. reflexivity.
 Qed.
@@ -68,7 +85,11 @@ Lemma rne_tie_above a b n :
 Proof.
   intros Hb Ha H He. destruct (rne_cases a b Hb Ha) as (E & Hr & Hq & ->).
   set (q := a / b) in *. set (r := a mod b) in *.
-  assert (q = n /\ 2 * r = b) as [Hqn Hrb] by nia.
+  assert (Hqn : q = n).
+  { assert (H1 : b * (2 * q) <= b * (2 * n + 1)) by lia.
+    assert (H2 : b * (2 * n - 1) < b * (2 * q + 1)) by lia.
+    apply Z.mul_le_mono_pos_l in H1; [|exact Hb]. apply Z.mul_lt_mono_pos_l in H2; [|exact Hb]. lia. }
+  assert (Hrb : 2 * r = b) by (subst q; lia).
   destruct (2 * r <? b) eqn:E1; [apply Z.ltb_lt in E1; lia|].
   destruct (b <? 2 * r) eqn:E2; [apply Z.ltb_lt in E2; lia|].
   rewrite Hqn, He. reflexivity.
@@ -89,3 +110,1233 @@ Proof.
   2:{ destruct (b <? 2 * (a mod b)) eqn:E1; symmetry; [apply Z.ltb_lt in E1; apply Z.ltb_lt; nia|apply Z.ltb_ge in E1; apply Z.ltb_ge; nia]. }
   reflexivity.
 Qed.
+
+(* ------------------------------------------------------------------ powers of two *)
+
+Lemma pow2_pos k : 0 <= k -> 0 < 2 ^ k.
+Proof. intros H. apply Z.pow_pos_nonneg; lia. Qed.
+
+Lemma pow2_add x y : 0 <= x -> 0 <= y -> 2 ^ (x + y) = 2 ^ x * 2 ^ y.
+Proof. intros. apply Z.pow_add_r; assumption. Qed.
+
+Lemma pow2_lt_inv x y : 0 <= y -> 2 ^ x < 2 ^ y -> x < y.
+Proof. intros Hy H. apply (Z.pow_lt_mono_r_iff 2); [lia|exact Hy|exact H]. Qed.
+
+Lemma pow2_le_mono x y : 0 <= x <= y -> 2 ^ x <= 2 ^ y.
+Proof. intros H. apply Z.pow_le_mono_r; lia. Qed.
+
+Lemma pow2_lt_mono x y : 0 <= x < y -> 2 ^ x < 2 ^ y.
+Proof. intros H. apply Z.pow_lt_mono_r; lia. Qed.
+
+(* 2^k <= a/b < 2^(k+1), with both sides scaled by 2^N so that all exponents are natural *)
+Definition binade_at (a b k N : Z) : Prop :=
+  0 <= N /\ 0 <= N + k /\ b * 2 ^ (N + k) <= a * 2 ^ N < b * 2 ^ (N + k + 1).
+
+Lemma binade_shift a b k N M : 0 < b -> binade_at a b k N -> N <= M -> binade_at a b k M.
+Proof.
+  intros Hb (HN & HNk & H1 & H2) HM. unfold binade_at.
+  split; [lia|]. split; [lia|].
+  assert (E1 : 2 ^ (M + k) = 2 ^ (N + k) * 2 ^ (M - N)) by (rewrite <- pow2_add by lia; f_equal; lia).
+  assert (E2 : 2 ^ (M + k + 1) = 2 ^ (N + k + 1) * 2 ^ (M - N)) by (rewrite <- pow2_add by lia; f_equal; lia).
+  assert (E3 : 2 ^ M = 2 ^ N * 2 ^ (M - N)) by (rewrite <- pow2_add by lia; f_equal; lia).
+  rewrite E1, E2, E3.
+  pose proof (pow2_pos (M - N) ltac:(lia)) as Hp.
+  set (p := 2 ^ (M - N)) in *. set (x := 2 ^ (N + k)) in *. set (y := 2 ^ N) in *. set (z := 2 ^ (N + k + 1)) in *.
+  replace (b * (x * p)) with (b * x * p) by ring. replace (a * (y * p)) with (a * y * p) by ring.
+  replace (b * (z * p)) with (b * z * p) by ring.
+  split; [apply Z.mul_le_mono_nonneg_r; lia|apply Z.mul_lt_mono_pos_r; lia].
+Qed.
+
+Lemma binade_unique a b k k' N N' :
+  0 < a -> 0 < b -> binade_at a b k N -> binade_at a b k' N' -> k = k'.
+Proof.
+  intros Ha Hb H H'.
+  pose proof (binade_shift a b k N (N + N') Hb H ltac:(destruct H'; lia)) as (A0 & A1 & A2 & A3).
+  pose proof (binade_shift a b k' N' (N + N') Hb H' ltac:(destruct H; lia)) as (B0 & B1 & B2 & B3).
+  set (M := N + N') in *.
+  assert (L1 : b * 2 ^ (M + k) < b * 2 ^ (M + k' + 1)) by lia.
+  assert (L2 : b * 2 ^ (M + k') < b * 2 ^ (M + k + 1)) by lia.
+  apply Z.mul_lt_mono_pos_l in L1; [|exact Hb]. apply Z.mul_lt_mono_pos_l in L2; [|exact Hb].
+  apply pow2_lt_inv in L1; [|lia]. apply pow2_lt_inv in L2; [|lia]. lia.
+Qed.
+
+Lemma flog2_q_spec a b :
+  0 < a -> 0 < b -> binade_at a b (flog2_q a b) (Z.abs (flog2_q a b) + 1).
+Proof.
+  intros Ha Hb.
+  pose proof (Z.log2_spec a Ha) as [La1 La2]. pose proof (Z.log2_spec b Hb) as [Lb1 Lb2].
+  pose proof (Z.log2_nonneg a) as La0. pose proof (Z.log2_nonneg b) as Lb0.
+  unfold flog2_q. set (la := Z.log2 a) in *. set (lb := Z.log2 b) in *. set (l := la - lb).
+  set (ge := if 0 <=? l then b * 2 ^ l <=? a else b <=? a * 2 ^ (- l)).
+  (* ge decides 2^l <= a/b; state it at an arbitrary natural scale *)
+  assert (Hge : forall N, 0 <= N -> 0 <= N + l -> (ge = true <-> b * 2 ^ (N + l) <= a * 2 ^ N)).
+  { intros N HN HNl. subst ge. pose proof (pow2_pos N HN) as HpN. destruct (0 <=? l) eqn:El.
+    - apply Z.leb_le in El. rewrite Z.leb_le. rewrite (Z.add_comm N l), pow2_add by lia.
+      pose proof (pow2_pos l El). set (pl := 2 ^ l) in *. set (pN := 2 ^ N) in *. split; intros; nia.
+    - apply Z.leb_gt in El. rewrite Z.leb_le.
+      replace N with ((N + l) + (- l)) at 2 by lia. rewrite (pow2_add (N + l) (- l)) by lia.
+      pose proof (pow2_pos (N + l) HNl). pose proof (pow2_pos (- l) ltac:(lia)).
+      set (p1 := 2 ^ (N + l)) in *. set (p2 := 2 ^ (- l)) in *. split; intros; nia. }
+  (* the two outer bounds that hold whatever ge says *)
+  assert (Hlow : forall N, 0 <= N -> 0 <= N + l - 1 -> b * 2 ^ (N + l - 1) <= a * 2 ^ N).
+  { intros N HN HNl. pose proof (pow2_pos N HN) as HpN.
+    assert (b * 2 ^ (N + l - 1) <= 2 ^ (lb + 1) * 2 ^ (N + l - 1)).
+    { apply Z.mul_le_mono_nonneg_r; [pose proof (pow2_pos (N + l - 1) HNl); lia|lia]. }
+    assert (2 ^ (lb + 1) * 2 ^ (N + l - 1) = 2 ^ la * 2 ^ N).
+    { rewrite <- !pow2_add by lia. f_equal. subst l. lia. }
+    assert (2 ^ la * 2 ^ N <= a * 2 ^ N) by (apply Z.mul_le_mono_nonneg_r; lia). lia. }
+  assert (Hhigh : forall N, 0 <= N -> 0 <= N + l + 1 -> a * 2 ^ N < b * 2 ^ (N + l + 1)).
+  { intros N HN HNl. pose proof (pow2_pos N HN) as HpN.
+    assert (a * 2 ^ N < 2 ^ (la + 1) * 2 ^ N) by (apply Z.mul_lt_mono_pos_r; lia).
+    assert (2 ^ (la + 1) * 2 ^ N = 2 ^ lb * 2 ^ (N + l + 1)).
+    { rewrite <- !pow2_add by lia. f_equal. subst l. lia. }
+    assert (2 ^ lb * 2 ^ (N + l + 1) <= b * 2 ^ (N + l + 1)).
+    { apply Z.mul_le_mono_nonneg_r; [pose proof (pow2_pos (N + l + 1) HNl); lia|lia]. }
+    lia. }
+  destruct ge eqn:Eg.
+  - set (N := Z.abs l + 1). unfold binade_at. split; [lia|]. split; [lia|]. split.
+    + apply Hge; [lia|lia|reflexivity].
+    + apply Hhigh; lia.
+  - set (N := Z.abs (l - 1) + 1). unfold binade_at. split; [lia|]. split; [lia|]. split.
+    + replace (N + (l - 1)) with (N + l - 1) by lia. apply Hlow; lia.
+    + replace (N + (l - 1) + 1) with (N + l) by lia.
+      destruct (Z.lt_ge_cases (a * 2 ^ N) (b * 2 ^ (N + l))) as [Hlt|Hge']; [exact Hlt|].
+      apply (Hge N) in Hge'; [congruence|lia|lia].
+Qed.
+
+Lemma flog2_q_unique a b k N : 0 < a -> 0 < b -> binade_at a b k N -> flog2_q a b = k.
+Proof.
+  intros Ha Hb H. eapply binade_unique; [exact Ha|exact Hb|apply flog2_q_spec; assumption|exact H].
+Qed.
+
+(* bounds on flog2_q from one comparison at any natural scale *)
+Lemma flog2_q_ge a b k N :
+  0 < a -> 0 < b -> 0 <= N -> 0 <= N + k -> b * 2 ^ (N + k) <= a * 2 ^ N -> k <= flog2_q a b.
+Proof.
+  intros Ha Hb HN HNk H.
+  pose proof (flog2_q_spec a b Ha Hb) as S. set (f := flog2_q a b) in *.
+  pose proof (binade_shift a b f _ (Z.abs f + 1 + N) Hb S ltac:(lia)) as (A0 & A1 & A2 & A3).
+  set (M := Z.abs f + 1 + N) in *.
+  assert (E1 : 2 ^ (M + k) = 2 ^ (N + k) * 2 ^ (M - N)) by (rewrite <- pow2_add by lia; f_equal; lia).
+  assert (E3 : 2 ^ M = 2 ^ N * 2 ^ (M - N)) by (rewrite <- pow2_add by lia; f_equal; lia).
+  pose proof (pow2_pos (M - N) ltac:(lia)) as Hp.
+  assert (H' : b * 2 ^ (M + k) <= a * 2 ^ M).
+  { rewrite E1, E3. replace (b * (2 ^ (N + k) * 2 ^ (M - N))) with (b * 2 ^ (N + k) * 2 ^ (M - N)) by ring.
+    replace (a * (2 ^ N * 2 ^ (M - N))) with (a * 2 ^ N * 2 ^ (M - N)) by ring.
+    apply Z.mul_le_mono_nonneg_r; lia. }
+  assert (L : b * 2 ^ (M + k) < b * 2 ^ (M + f + 1)) by lia.
+  apply Z.mul_lt_mono_pos_l in L; [|exact Hb]. apply pow2_lt_inv in L; lia.
+Qed.
+
+Lemma flog2_q_lt a b k N :
+  0 < a -> 0 < b -> 0 <= N -> 0 <= N + k -> a * 2 ^ N < b * 2 ^ (N + k) -> flog2_q a b < k.
+Proof.
+  intros Ha Hb HN HNk H.
+  pose proof (flog2_q_spec a b Ha Hb) as S. set (f := flog2_q a b) in *.
+  pose proof (binade_shift a b f _ (Z.abs f + 1 + N) Hb S ltac:(lia)) as (A0 & A1 & A2 & A3).
+  set (M := Z.abs f + 1 + N) in *.
+  assert (E1 : 2 ^ (M + k) = 2 ^ (N + k) * 2 ^ (M - N)) by (rewrite <- pow2_add by lia; f_equal; lia).
+  assert (E3 : 2 ^ M = 2 ^ N * 2 ^ (M - N)) by (rewrite <- pow2_add by lia; f_equal; lia).
+  pose proof (pow2_pos (M - N) ltac:(lia)) as Hp.
+  assert (H' : a * 2 ^ M < b * 2 ^ (M + k)).
+  { rewrite E1, E3. replace (b * (2 ^ (N + k) * 2 ^ (M - N))) with (b * 2 ^ (N + k) * 2 ^ (M - N)) by ring.
+    replace (a * (2 ^ N * 2 ^ (M - N))) with (a * 2 ^ N * 2 ^ (M - N)) by ring.
+    apply Z.mul_lt_mono_pos_r; lia. }
+  assert (L : b * 2 ^ (M + f) < b * 2 ^ (M + k)) by lia.
+  apply Z.mul_lt_mono_pos_l in L; [|exact Hb]. apply pow2_lt_inv in L; lia.
+Qed.
+
+(* scaled_rne in units of 2^-1074: one shape for both signs of E *)
+Lemma scaled_rne_norm a b E :
+  0 < b -> -1074 <= E -> scaled_rne a b E = rne (a * 2 ^ 1074) (b * 2 ^ (E + 1074)).
+Proof.
+  intros Hb HE. unfold scaled_rne. destruct (0 <=? E) eqn:E0.
+  - apply Z.leb_le in E0. rewrite (Z.add_comm E 1074), pow2_add by lia.
+    replace (b * (2 ^ 1074 * 2 ^ E)) with (b * 2 ^ E * 2 ^ 1074) by ring.
+    symmetry. apply rne_scale; [pose proof (pow2_pos E E0); nia|apply pow2_pos; lia].
+  - apply Z.leb_gt in E0.
+    replace (2 ^ 1074) with (2 ^ (- E) * 2 ^ (E + 1074)) by (rewrite <- pow2_add by lia; f_equal; lia).
+    replace (a * (2 ^ (- E) * 2 ^ (E + 1074))) with (a * 2 ^ (- E) * 2 ^ (E + 1074)) by ring.
+    symmetry. apply rne_scale; [exact Hb|apply pow2_pos; lia].
+Qed.
+
+Lemma rne_le_of_le a b n : 0 < b -> 0 <= a -> a <= b * n -> rne a b <= n.
+Proof.
+  intros Hb Ha H. pose proof (rne_near a b Hb Ha) as [_ N2].
+  assert (L : b * (2 * rne a b) < b * (2 * n + 2)) by lia.
+  apply Z.mul_lt_mono_pos_l in L; [lia|exact Hb].
+Qed.
+
+Lemma rne_ge_of_ge a b n : 0 < b -> 0 <= a -> b * n <= a -> n <= rne a b.
+Proof.
+  intros Hb Ha H. pose proof (rne_near a b Hb Ha) as [N1 _].
+  assert (L : b * (2 * n - 2) < b * (2 * rne a b)) by lia.
+  apply Z.mul_lt_mono_pos_l in L; [lia|exact Hb].
+Qed.
+
+(* ------------------------------------------------------------------ round_q *)
+
+Lemma p1076 : 2 ^ 1076 = 4 * 2 ^ 1074.
+Proof. replace 1076 with (2 + 1074) by lia. rewrite pow2_add by lia. reflexivity. Qed.
+
+Lemma round_q_unfold neg a b :
+  0 < b ->
+  let f := flog2_q a b in
+  let E := Z.max (-1074) (f - 52) in
+  let M := rne (a * 2 ^ 1074) (b * 2 ^ (E + 1074)) in
+  round_q neg a b =
+    (let '(M', E') := if M =? 2 ^ 53 then (2 ^ 52, E + 1) else (M, E) in
+     if 971 <? E' then S754_infinity neg
+     else match M' with Zpos p => S754_finite neg p E' | _ => S754_zero neg end).
+Proof.
+  intros Hb f E M. unfold round_q. fold f. fold E.
+  rewrite (scaled_rne_norm a b E Hb) by (subst E; lia). reflexivity.
+Qed.
+
+(* every result of the rounding is a canonical binary64 *)
+Theorem round_q_valid : forall neg a b, 0 < a -> 0 < b -> valid (round_q neg a b).
+Proof.
+  intros neg a b Ha Hb. rewrite (round_q_unfold neg a b Hb). cbv zeta.
+  set (f := flog2_q a b). set (E := Z.max (-1074) (f - 52)).
+  assert (HE : -1074 <= E) by (subst E; lia).
+  pose proof (pow2_pos 1074 ltac:(lia)) as HU. set (U := 2 ^ 1074) in *.
+  pose proof (pow2_pos (E + 1074) ltac:(lia)) as HP. 
+  set (A := a * U). set (B := b * 2 ^ (E + 1074)).
+  assert (HA : 0 <= A) by (subst A; nia). assert (HB : 0 < B) by (subst B; nia).
+  set (M := rne A B). pose proof (rne_nonneg A B HB HA) as HM0. fold M in HM0.
+  (* a/b < 2^(k) for every k > f, at scale 1074 *)
+  assert (Hup : forall k, f < k -> 0 <= 1074 + k -> a * U < b * 2 ^ (1074 + k)).
+  { intros k Hk Hk0. destruct (Z.lt_ge_cases (a * U) (b * 2 ^ (1074 + k))) as [L|G]; [exact L|exfalso].
+    pose proof (flog2_q_ge a b k 1074 Ha Hb ltac:(lia) Hk0 G). fold f in H. lia. }
+  assert (Hdn : 0 <= 1074 + f -> b * 2 ^ (1074 + f) <= a * U).
+  { intros Hf0. destruct (Z.lt_ge_cases (a * U) (b * 2 ^ (1074 + f))) as [L|G]; [exfalso|exact G].
+    pose proof (flog2_q_lt a b f 1074 Ha Hb ltac:(lia) Hf0 L). fold f in H. lia. }
+  assert (HM53 : M <= 2 ^ 53).
+  { apply rne_le_of_le; [exact HB|exact HA|]. subst A B.
+    replace (b * 2 ^ (E + 1074) * 2 ^ 53) with (b * 2 ^ (1074 + (E + 53))).
+    2:{ replace (1074 + (E + 53)) with (E + 1074 + 53) by lia. rewrite (pow2_add (E + 1074) 53) by lia. ring. }
+    apply Z.lt_le_incl. apply Hup; subst E; lia. }
+  rewrite p53, p52 in *.
+  destruct (M =? 9007199254740992) eqn:EM.
+  - destruct (971 <? E + 1) eqn:E9; [exact I|]. apply Z.ltb_ge in E9. cbn [valid]. right. rewrite p52, p53. lia.
+  - apply Z.eqb_neq in EM. destruct (971 <? E) eqn:E9; [exact I|]. apply Z.ltb_ge in E9.
+    destruct M as [|p|p] eqn:EMp; [exact I| |exact I].
+    cbn [valid]. rewrite p52, p53.
+    destruct (Z.eq_dec E (-1074)) as [HEq|HNe].
+    + destruct (Z.lt_ge_cases (Z.pos p) 4503599627370496) as [L|G]; [left; split; assumption|right; lia].
+    + right. split; [|lia]. split; [|lia].
+      (* E = f - 52 *)
+      assert (HEf : E = f - 52) by (subst E; lia).
+      rewrite <- EMp. apply rne_ge_of_ge; [exact HB|exact HA|]. subst A B.
+      replace (b * 2 ^ (E + 1074) * 4503599627370496) with (b * 2 ^ (1074 + f)).
+      2:{ rewrite <- p52. replace (1074 + f) with (E + 1074 + 52) by lia. rewrite (pow2_add (E + 1074) 52) by lia. ring. }
+      apply Hdn. lia.
+Qed.
+
+(* a/b lies in the set of reals that round to m*2^e: between the midpoints to the two
+   neighbouring doubles (the lower one is half as far when m*2^e is a power of two above the
+   subnormal range), end points included exactly when m is even.  Everything is written in
+   units of 2^-1076 so that it is a statement about integers. *)
+Definition lo4 (m : positive) (e : Z) : Z :=
+  if (Zpos m =? 2 ^ 52) && (-1074 <? e) then 4 * Zpos m - 1 else 4 * Zpos m - 2.
+
+Definition in_round_interval (m : positive) (e : Z) (a b : Z) : Prop :=
+  let P := 2 ^ (e + 1074) in
+  let c := a * 2 ^ 1076 in
+  if Z.even (Zpos m) then lo4 m e * P * b <= c <= (4 * Zpos m + 2) * P * b
+  else lo4 m e * P * b < c < (4 * Zpos m + 2) * P * b.
+
+Theorem round_q_interval : forall neg m e a b,
+  0 < a -> 0 < b -> valid (S754_finite neg m e) -> in_round_interval m e a b ->
+  round_q neg a b = S754_finite neg m e.
+Proof.
+  intros neg m e a b Ha Hb Hv Hin. rewrite (round_q_unfold neg a b Hb). cbv zeta.
+  set (f := flog2_q a b). set (E := Z.max (-1074) (f - 52)).
+  cbn [valid] in Hv. unfold in_round_interval, lo4 in Hin. rewrite p1076 in Hin. rewrite p52, p53 in *.
+  assert (He : -1074 <= e <= 971) by lia.
+  pose proof (pow2_pos 1074 ltac:(lia)) as HU. set (U := 2 ^ 1074) in *.
+  pose proof (pow2_pos (e + 1074) ltac:(lia)) as HP. set (P := 2 ^ (e + 1074)) in *.
+  set (A := a * U). assert (HA : 0 < A) by (subst A; nia).
+  set (B := b * P). assert (HB : 0 < B) by (subst B; nia).
+  set (mz := Z.pos m) in *. assert (Hm0 : 0 < mz) by (subst mz; lia).
+  (* the interval in terms of A and B, weak form *)
+  set (below := (mz =? 4503599627370496) && (-1074 <? e)) in *.
+  assert (Hweak : (if below then 4 * mz - 1 else 4 * mz - 2) * B <= 4 * A <= (4 * mz + 2) * B).
+  { subst A B. destruct (Z.even mz); destruct below; nia. }
+  assert (Hstrict : Z.even mz = false ->
+                    (if below then 4 * mz - 1 else 4 * mz - 2) * B < 4 * A < (4 * mz + 2) * B).
+  { intros Hodd. rewrite Hodd in Hin. subst A B. destruct below; nia. }
+  clear Hin.
+  (* comparisons of a/b with powers of two, at scale 1076 where a*2^1076 = 4A *)
+  assert (Hscale : forall k, 0 <= k -> b * 2 ^ (1076 + (k + e - 2)) = B * 2 ^ k).
+  { intros k Hk. subst B P. replace (1076 + (k + e - 2)) with (e + 1074 + k) by lia.
+    rewrite (pow2_add (e + 1074) k) by lia. ring. }
+  assert (H4A : a * 2 ^ 1076 = 4 * A) by (rewrite p1076; subst A U; ring).
+  assert (Hf_lt : forall k, 0 <= k -> 4 * A < B * 2 ^ k -> f < k + e - 2).
+  { intros k Hk H. apply (flog2_q_lt a b (k + e - 2) 1076 Ha Hb); [lia|lia|]. rewrite Hscale, H4A by lia. exact H. }
+  assert (Hf_ge : forall k, 0 <= k -> B * 2 ^ k <= 4 * A -> k + e - 2 <= f).
+  { intros k Hk H. apply (flog2_q_ge a b (k + e - 2) 1076 Ha Hb); [lia|lia|]. rewrite Hscale, H4A by lia. exact H. }
+  assert (q55 : 2 ^ 55 = 36028797018963968) by reflexivity.
+  assert (q54 : 2 ^ 54 = 18014398509481984) by reflexivity.
+  assert (q53 : 2 ^ 53 = 9007199254740992) by reflexivity.
+  (* f < 53 + e in every case *)
+  assert (Hf_hi : f < 53 + e).
+  { replace (53 + e) with (55 + e - 2) by lia. apply Hf_lt; [lia|]. rewrite q55. nia. }
+  destruct (below && (4 * A <? 4 * mz * B)) eqn:Ebb.
+  - (* just below a power of two: one binade down, rounds up to 2^53 and renormalises *)
+    apply andb_true_iff in Ebb as [Eb Elt]. apply Z.ltb_lt in Elt. rewrite Eb in Hweak, Hstrict.
+    subst below. apply andb_true_iff in Eb as [Em Ee]. apply Z.eqb_eq in Em. apply Z.ltb_lt in Ee.
+    assert (Hf : f = 51 + e).
+    { assert (53 + e - 2 <= f) by (apply Hf_ge; [lia|rewrite q53; nia]).
+      assert (f < 54 + e - 2) by (apply Hf_lt; [lia|rewrite q54; nia]). lia. }
+    assert (HE : E = e - 1) by (subst E; lia).
+    assert (HB' : b * 2 ^ (E + 1074) * 2 = B).
+    { subst B P. rewrite HE. replace (e + 1074) with ((e - 1 + 1074) + 1) by lia.
+      rewrite (pow2_add (e - 1 + 1074) 1) by lia. change (2 ^ 1) with 2. ring. }
+    pose proof (pow2_pos (E + 1074) ltac:(lia)) as HP'.
+    set (B' := b * 2 ^ (E + 1074)) in *. assert (HB'0 : 0 < B') by (subst B'; nia).
+    fold A.
+    assert (HM : rne A B' = 9007199254740992).
+    { destruct (Z.eq_dec (2 * A) (B' * (2 * 9007199254740992 - 1))) as [Tie|NTie].
+      - apply rne_tie_below; [exact HB'0|lia|lia|reflexivity].
+      - apply rne_inside; [exact HB'0|lia|].
+        destruct (Z.even mz) eqn:Ev.
+        + nia.
+        + specialize (Hstrict eq_refl). nia. }
+    rewrite HM. cbn [Z.eqb Pos.eqb]. rewrite HE.
+    replace (e - 1 + 1) with e by lia.
+    destruct (971 <? e) eqn:E9; [apply Z.ltb_lt in E9; lia|].
+    assert (Hmp : m = 4503599627370496%positive) by (subst mz; lia). rewrite Hmp. reflexivity.
+  - (* same binade: E = e and the mantissa rounds to m *)
+    assert (Hnb : below = false \/ 4 * mz * B <= 4 * A).
+    { apply andb_false_iff in Ebb as [H|H]; [left; exact H|right; apply Z.ltb_ge in H; exact H]. }
+    assert (HE : E = e).
+    { subst E. destruct (Z.eq_dec e (-1074)) as [Hem|Hem]; [lia|].
+      (* normal range: f = 52 + e *)
+      assert (Hnorm : 4503599627370496 <= mz) by lia.
+      assert (54 + e - 2 <= f); [|lia].
+      apply Hf_ge; [lia|]. rewrite q54.
+      destruct Hnb as [Hb0|Hge].
+      + rewrite Hb0 in Hweak. subst below. apply andb_false_iff in Hb0 as [Hb0|Hb0].
+        * apply Z.eqb_neq in Hb0. nia.
+        * apply Z.ltb_ge in Hb0. lia.
+      + nia. }
+    rewrite HE. fold P. fold B. fold A.
+    assert (HM : rne A B = mz).
+    { assert (Hlow : B * (2 * mz - 1) <= 2 * A).
+      { destruct Hnb as [Hb0|Hge]; [rewrite Hb0 in Hweak; nia|nia]. }
+      assert (Hlow' : Z.even mz = false -> B * (2 * mz - 1) < 2 * A).
+      { intros Hodd. specialize (Hstrict Hodd). destruct Hnb as [Hb0|Hge]; [rewrite Hb0 in Hstrict; nia|nia]. }
+      assert (Hupw : 2 * A <= B * (2 * mz + 1)) by nia.
+      assert (Hupw' : Z.even mz = false -> 2 * A < B * (2 * mz + 1)).
+      { intros Hodd. specialize (Hstrict Hodd). nia. }
+      destruct (Z.even mz) eqn:Ev.
+      - destruct (Z.eq_dec (2 * A) (B * (2 * mz - 1))) as [T1|N1]; [apply rne_tie_below; [exact HB|lia|exact T1|exact Ev]|].
+        destruct (Z.eq_dec (2 * A) (B * (2 * mz + 1))) as [T2|N2]; [apply rne_tie_above; [exact HB|lia|exact T2|exact Ev]|].
+        apply rne_inside; [exact HB|lia|lia].
+      - apply rne_inside; [exact HB|lia|]. split; [apply Hlow'; reflexivity|apply Hupw'; reflexivity]. }
+    rewrite HM.
+    destruct (mz =? 9007199254740992) eqn:E53; [apply Z.eqb_eq in E53; lia|].
+    destruct (971 <? e) eqn:E9; [apply Z.ltb_lt in E9; lia|].
+    subst mz. reflexivity.
+Qed.
+
+(* ------------------------------------------------------------------ digit strings *)
+
+Definition digit (d : Z) : Prop := 48 <= d <= 57.
+
+Lemma is_digit_spec d : is_digit d = true <-> digit d.
+Proof. unfold is_digit, digit. rewrite andb_true_iff, !Z.leb_le. tauto. Qed.
+
+Lemma pow10_pos k : 0 <= k -> 0 < 10 ^ k.
+Proof. intros. apply Z.pow_pos_nonneg; lia. Qed.
+
+Lemma pow10_add x y : 0 <= x -> 0 <= y -> 10 ^ (x + y) = 10 ^ x * 10 ^ y.
+Proof. intros. apply Z.pow_add_r; assumption. Qed.
+
+Lemma pow10_succ x : 0 <= x -> 10 ^ (x + 1) = 10 * 10 ^ x.
+Proof. intros. rewrite pow10_add by lia. change (10 ^ 1) with 10. ring. Qed.
+
+Lemma digits_val_acc ds : forall acc,
+  digits_val acc ds = acc * 10 ^ Z.of_nat (length ds) + digits_val 0 ds.
+Proof.
+  induction ds as [|d t IH]; intros acc; cbn [digits_val length].
+  - change (10 ^ Z.of_nat 0) with 1. lia.
+  - rewrite (IH (acc * 10 + (d - 48))), (IH (0 * 10 + (d - 48))).
+    rewrite Nat2Z.inj_succ, <- Z.add_1_r, pow10_succ by lia. ring.
+Qed.
+
+Lemma digits_val_bound ds :
+  Forall digit ds -> 0 <= digits_val 0 ds < 10 ^ Z.of_nat (length ds).
+Proof.
+  induction 1 as [|d t Hd Ht IH]; cbn [digits_val length].
+  - change (10 ^ Z.of_nat 0) with 1. lia.
+  - rewrite digits_val_acc. rewrite Nat2Z.inj_succ, <- Z.add_1_r, pow10_succ by lia.
+    unfold digit in Hd. pose proof (pow10_pos (Z.of_nat (length t)) ltac:(lia)). nia.
+Qed.
+
+Lemma digits_val_app a b : forall acc,
+  digits_val acc (a ++ b) = digits_val (digits_val acc a) b.
+Proof. induction a as [|d t IH]; intros acc; cbn [digits_val app]; [reflexivity|apply IH]. Qed.
+
+Lemma digits_val_zeros n : forall acc, digits_val acc (zeros n) = acc * 10 ^ Z.of_nat n.
+Proof.
+  induction n as [|n IH]; intros acc; cbn [zeros digits_val].
+  - change (10 ^ Z.of_nat 0) with 1. lia.
+  - rewrite IH. rewrite Nat2Z.inj_succ, <- Z.add_1_r, pow10_succ by lia. ring.
+Qed.
+
+Lemma zeros_digit n : Forall digit (zeros n).
+Proof. induction n; cbn [zeros]; constructor; [unfold digit; lia|assumption]. Qed.
+
+Lemma zeros_length n : length (zeros n) = n.
+Proof. induction n; cbn [zeros length]; congruence. Qed.
+
+Lemma strip_val ds : digits_val 0 (strip_leading_zeros ds) = digits_val 0 ds.
+Proof.
+  induction ds as [|d t IH]; cbn [strip_leading_zeros]; [reflexivity|].
+  destruct (d =? 48) eqn:E; [|reflexivity]. apply Z.eqb_eq in E. subst d. cbn [digits_val]. exact IH.
+Qed.
+
+Lemma strip_digit ds : Forall digit ds -> Forall digit (strip_leading_zeros ds).
+Proof.
+  induction 1 as [|d t Hd Ht IH]; cbn [strip_leading_zeros]; [constructor|].
+  destruct (d =? 48); [exact IH|constructor; assumption].
+Qed.
+
+Lemma strip_head ds d t : strip_leading_zeros ds = d :: t -> d <> 48.
+Proof.
+  induction ds as [|x r IH]; cbn [strip_leading_zeros]; [discriminate|].
+  destruct (x =? 48) eqn:E; [exact IH|]. intros H. inversion H; subst. apply Z.eqb_neq in E. exact E.
+Qed.
+
+(* a digit string that does not start with '0' has its full magnitude *)
+Lemma digits_val_lower d t :
+  Forall digit (d :: t) -> d <> 48 -> 10 ^ Z.of_nat (length t) <= digits_val 0 (d :: t).
+Proof.
+  intros H Hd. inversion H as [|x y Hx Hy]; subst. cbn [digits_val]. rewrite digits_val_acc.
+  pose proof (digits_val_bound t Hy). unfold digit in Hx.
+  pose proof (pow10_pos (Z.of_nat (length t)) ltac:(lia)). nia.
+Qed.
+
+Lemma strip_nil_val ds : Forall digit ds -> (strip_leading_zeros ds = [] <-> digits_val 0 ds = 0).
+Proof.
+  intros H. rewrite <- strip_val. pose proof (strip_digit ds H) as Hs.
+  destruct (strip_leading_zeros ds) as [|d t] eqn:E; [cbn; tauto|].
+  split; [discriminate|]. intros H0. exfalso.
+  pose proof (digits_val_lower d t Hs (strip_head ds d t E)).
+  pose proof (pow10_pos (Z.of_nat (length t)) ltac:(lia)). lia.
+Qed.
+
+(* ------------------------------------------------------------------ overflow / underflow of round_q *)
+
+Lemma round_q_overflow neg a b : 0 < a -> 0 < b -> b * 2 ^ 1024 <= a -> round_q neg a b = S754_infinity neg.
+Proof.
+  intros Ha Hb H. rewrite (round_q_unfold neg a b Hb). cbv zeta.
+  assert (Hf : 1024 <= flog2_q a b).
+  { apply (flog2_q_ge a b 1024 0 Ha Hb); [lia|lia|]. change (2 ^ 0) with 1. rewrite Z.mul_1_r. exact H. }
+  set (f := flog2_q a b) in *. set (E := Z.max (-1074) (f - 52)).
+  assert (HE : 972 <= E) by (subst E; lia).
+  destruct (rne (a * 2 ^ 1074) (b * 2 ^ (E + 1074)) =? 2 ^ 53).
+  - replace (971 <? E + 1) with true by (symmetry; apply Z.ltb_lt; lia). reflexivity.
+  - replace (971 <? E) with true by (symmetry; apply Z.ltb_lt; lia). reflexivity.
+Qed.
+
+Lemma round_q_underflow neg a b : 0 < a -> 0 < b -> a * 2 ^ 1075 < b -> round_q neg a b = S754_zero neg.
+Proof.
+  intros Ha Hb H. rewrite (round_q_unfold neg a b Hb). cbv zeta.
+  assert (H1075 : 2 ^ 1075 = 2 * 2 ^ 1074) by (replace 1075 with (1 + 1074) by lia; rewrite pow2_add by lia; reflexivity).
+  pose proof (pow2_pos 1074 ltac:(lia)) as HU. rewrite H1075 in H. set (U := 2 ^ 1074) in *.
+  assert (Hf : flog2_q a b < -1074).
+  { apply (flog2_q_lt a b (-1074) 1074 Ha Hb); [lia|lia|]. change (2 ^ (1074 + -1074)) with 1. fold U. nia. }
+  set (f := flog2_q a b) in *. set (E := Z.max (-1074) (f - 52)).
+  assert (HE : E = -1074) by (subst E; lia). rewrite HE.
+  change (2 ^ (-1074 + 1074)) with 1. rewrite Z.mul_1_r.
+  assert (HM : rne (a * U) b = 0) by (apply rne_inside; [exact Hb|nia|nia]).
+  rewrite HM. reflexivity.
+Qed.
+
+Lemma c_overflow : 2 ^ 1024 <= 10 ^ 310. Proof. vm_compute. discriminate. Qed.
+Lemma c_underflow : 2 ^ 1075 <= 10 ^ 331. Proof. vm_compute. discriminate. Qed.
+
+(* the value of a numeral: digits read as an integer w, times 10^e, correctly rounded *)
+Definition exact_round (neg : bool) (w e : Z) : f64 :=
+  if w =? 0 then S754_zero neg else let '(a, b) := dec_fraction w e in round_q neg a b.
+
+(* the early exits of round_dec return what rounding the exact fraction returns *)
+Theorem round_dec_exact : forall neg ds e,
+  Forall digit ds -> round_dec neg ds e = exact_round neg (digits_val 0 ds) e.
+Proof.
+  intros neg ds e Hd. unfold round_dec, exact_round.
+  pose proof (strip_nil_val ds Hd) as Hnil. pose proof (strip_digit ds Hd) as Hsd.
+  pose proof (strip_val ds) as Hv.
+  destruct (strip_leading_zeros ds) as [|d t] eqn:Es.
+  - replace (digits_val 0 ds) with 0 by (symmetry; apply Hnil; reflexivity). reflexivity.
+  - pose proof (digits_val_lower d t Hsd (strip_head ds d t Es)) as Hlow.
+    pose proof (digits_val_bound (d :: t) Hsd) as Hup.
+    rewrite Hv in Hlow, Hup. set (w := digits_val 0 ds) in *.
+    cbn [length] in *. rewrite Nat2Z.inj_succ, <- Z.add_1_r in *.
+    set (n := Z.of_nat (length t)) in *. assert (Hn : 0 <= n) by (subst n; lia).
+    pose proof (pow10_pos n Hn) as Hpn.
+    destruct (w =? 0) eqn:Ew; [apply Z.eqb_eq in Ew; lia|].
+    destruct (310 <? n + 1 + e) eqn:E1.
+    + apply Z.ltb_lt in E1. unfold dec_fraction. destruct (0 <=? e) eqn:Ee.
+      * apply Z.leb_le in Ee. symmetry. apply round_q_overflow; [pose proof (pow10_pos e Ee); nia|lia|].
+        rewrite Z.mul_1_l. apply Z.le_trans with (10 ^ 310); [exact c_overflow|].
+        apply Z.le_trans with (10 ^ (n + e)); [apply Z.pow_le_mono_r; lia|].
+        rewrite pow10_add by lia. apply Z.mul_le_mono_nonneg_r; [pose proof (pow10_pos e Ee); lia|lia].
+      * apply Z.leb_gt in Ee. symmetry. apply round_q_overflow; [lia|apply pow10_pos; lia|].
+        apply Z.le_trans with (10 ^ (- e) * 10 ^ 310);
+          [apply Z.mul_le_mono_nonneg_l; [pose proof (pow10_pos (- e) ltac:(lia)); lia|exact c_overflow]|].
+        rewrite <- pow10_add by lia. apply Z.le_trans with (10 ^ n); [apply Z.pow_le_mono_r; lia|lia].
+    + destruct (n + 1 + e <? -330) eqn:E2.
+      * apply Z.ltb_lt in E2. unfold dec_fraction. destruct (0 <=? e) eqn:Ee; [apply Z.leb_le in Ee; lia|].
+        symmetry. apply round_q_underflow; [lia|apply pow10_pos; lia|].
+        apply Z.lt_le_trans with (10 ^ (n + 1) * 10 ^ 331).
+        -- pose proof c_underflow. pose proof (pow2_pos 1075 ltac:(lia)). nia.
+        -- rewrite <- pow10_add by lia. apply Z.pow_le_mono_r; lia.
+      * rewrite Hv. reflexivity.
+Qed.
+
+(* ------------------------------------------------------------------ parsing what Display prints *)
+
+Lemma span_digits_app ds r :
+  Forall digit ds -> match r with [] => True | c :: _ => is_digit c = false end ->
+  span_digits (ds ++ r) = (ds, r).
+Proof.
+  intros Hd Hr. induction Hd as [|d t Hdd Ht IH]; cbn [app span_digits].
+  - destruct r as [|c r']; [reflexivity|]. cbn [span_digits]. rewrite Hr. reflexivity.
+  - apply is_digit_spec in Hdd. rewrite Hdd, IH. reflexivity.
+Qed.
+
+Lemma span_digits_all ds : Forall digit ds -> span_digits ds = (ds, []).
+Proof. intros H. rewrite <- (app_nil_r ds) at 1. apply span_digits_app; [exact H|exact I]. Qed.
+
+Lemma parse_decimal_int ds :
+  Forall digit ds -> ds <> [] -> parse_decimal ds = Some (ds, 0).
+Proof.
+  intros Hd Hne. unfold parse_decimal. rewrite (span_digits_all ds Hd). rewrite app_nil_r.
+  destruct ds as [|d t]; [congruence|]. reflexivity.
+Qed.
+
+Lemma parse_decimal_frac ip fp :
+  Forall digit ip -> Forall digit fp -> ip ++ fp <> [] ->
+  parse_decimal (ip ++ 46 :: fp) = Some (ip ++ fp, - Z.of_nat (length fp)).
+Proof.
+  intros Hi Hf Hne. unfold parse_decimal.
+  rewrite (span_digits_app ip (46 :: fp) Hi) by reflexivity.
+  cbn [Z.eqb Pos.eqb]. rewrite (span_digits_all fp Hf).
+  destruct (ip ++ fp) as [|d t]; [congruence|]. reflexivity.
+Qed.
+
+(* dec_digits *)
+Lemma digits_fuel_spec : forall f n acc,
+  0 <= n < 2 ^ Z.of_nat f -> (1 <= f)%nat ->
+  exists ds, digits_fuel f n acc = ds ++ acc /\ Forall digit ds /\ ds <> [] /\ digits_val 0 ds = n.
+Proof.
+  induction f as [|f IH]; intros n acc Hn Hf; [lia|]. cbn [digits_fuel].
+  destruct (n <? 10) eqn:E10.
+  - apply Z.ltb_lt in E10. exists [48 + n]. split; [reflexivity|]. split; [constructor; [unfold digit; lia|constructor]|].
+    split; [discriminate|]. cbn [digits_val]. lia.
+  - apply Z.ltb_ge in E10.
+    rewrite Nat2Z.inj_succ, <- Z.add_1_r in Hn. rewrite (pow2_add (Z.of_nat f) 1) in Hn by lia. change (2 ^ 1) with 2 in Hn.
+    assert (Hf1 : (1 <= f)%nat).
+    { destruct f as [|f']; [|lia]. change (2 ^ Z.of_nat 0) with 1 in Hn. lia. }
+    assert (Hq : 0 <= n / 10 < 2 ^ Z.of_nat f).
+    { split; [apply Z.div_pos; lia|]. apply Z.div_lt_upper_bound; lia. }
+    destruct (IH (n / 10) ((48 + n mod 10) :: acc) Hq Hf1) as (ds & E & Hd & Hne & Hv).
+    exists (ds ++ [48 + n mod 10]). split; [rewrite E, <- app_assoc; reflexivity|].
+    pose proof (Z.mod_pos_bound n 10 ltac:(lia)) as Hm.
+    split; [apply Forall_app; split; [exact Hd|constructor; [unfold digit; lia|constructor]]|].
+    split; [destruct ds; discriminate|].
+    rewrite digits_val_app, Hv. cbn [digits_val]. pose proof (Z.div_mod n 10 ltac:(lia)). lia.
+Qed.
+
+Lemma dec_digits_spec q :
+  0 < q -> Forall digit (dec_digits q) /\ dec_digits q <> [] /\ digits_val 0 (dec_digits q) = q.
+Proof.
+  intros Hq. unfold dec_digits.
+  destruct (digits_fuel_spec (S (Z.to_nat (Z.log2 (Z.max q 1)))) q []) as (ds & E & Hd & Hne & Hv).
+  - rewrite Z.max_l by lia. rewrite Nat2Z.inj_succ, Z2Nat.id by apply Z.log2_nonneg.
+    pose proof (Z.log2_spec q Hq). lia.
+  - lia.
+  - rewrite E, app_nil_r. auto.
+Qed.
+
+(* the fraction a candidate (q, j) of `shortest` stands for: q * 10^(-j) *)
+Definition cand (q j : Z) : Z * Z := if 0 <=? j then (q, 10 ^ j) else (q * 10 ^ (- j), 1).
+
+Lemma firstn_skipn_digit {n} (ds : list Z) : Forall digit ds -> Forall digit (firstn n ds) /\ Forall digit (skipn n ds).
+Proof.
+  intros H. rewrite <- (firstn_skipn n ds) in H. apply Forall_app in H. exact H.
+Qed.
+
+Lemma parse_plain q j :
+  0 < q ->
+  exists ds e c t,
+    plain q j = c :: t /\ digit c /\
+    parse_decimal (plain q j) = Some (ds, e) /\ Forall digit ds /\ 0 < digits_val 0 ds /\
+    let '(a, b) := dec_fraction (digits_val 0 ds) e in
+    let '(cn, cd) := cand q j in 0 < a /\ 0 < b /\ a * cd = cn * b.
+Proof.
+  intros Hq. destruct (dec_digits_spec q Hq) as (Hd & Hne & Hv).
+  unfold plain, cand. set (dq := dec_digits q) in *.
+  destruct dq as [|c0 t0] eqn:Edq; [congruence|]. rewrite <- Edq in *.
+  assert (Hc0 : digit c0) by (rewrite Edq in Hd; inversion Hd; assumption).
+  destruct (j <=? 0) eqn:Ej.
+  - apply Z.leb_le in Ej. exists (dq ++ zeros (Z.to_nat (- j))), 0, c0, (t0 ++ zeros (Z.to_nat (- j))).
+    split; [rewrite Edq; reflexivity|]. split; [exact Hc0|].
+    assert (Hall : Forall digit (dq ++ zeros (Z.to_nat (- j)))) by (apply Forall_app; split; [exact Hd|apply zeros_digit]).
+    split; [apply parse_decimal_int; [exact Hall|rewrite Edq; discriminate]|]. split; [exact Hall|].
+    rewrite digits_val_app, Hv, digits_val_zeros, Z2Nat.id by lia.
+    pose proof (pow10_pos (- j) ltac:(lia)) as Hp. split; [nia|].
+    unfold dec_fraction. cbn [Z.leb Z.compare]. change (10 ^ 0) with 1.
+    destruct (0 <=? j) eqn:Ej0.
+    + apply Z.leb_le in Ej0. assert (j = 0) by lia. subst j. change (10 ^ (- 0)) with 1. change (10 ^ 0) with 1. lia.
+    + nia.
+  - apply Z.leb_gt in Ej. replace (0 <=? j) with true by (symmetry; apply Z.leb_le; lia).
+    pose proof (pow10_pos j ltac:(lia)) as Hp.
+    destruct (j <? Z.of_nat (length dq)) eqn:Ejn.
+    + apply Z.ltb_lt in Ejn. set (k := Z.to_nat (Z.of_nat (length dq) - j)).
+      assert (Hk : (1 <= k <= length dq)%nat) by (subst k; lia).
+      destruct (@firstn_skipn_digit k dq Hd) as [Hf Hs].
+      assert (Hfirst : exists t1, firstn k dq = c0 :: t1).
+      { rewrite Edq. destruct k as [|k']; [lia|]. cbn [firstn]. eexists; reflexivity. }
+      destruct Hfirst as [t1 Et1].
+      exists dq, (- j), c0, (t1 ++ [46] ++ skipn k dq).
+      split; [rewrite Et1; reflexivity|]. split; [exact Hc0|].
+      assert (Hlen : Z.of_nat (length (skipn k dq)) = j) by (rewrite skipn_length; subst k; lia).
+      split.
+      { change ([46] ++ skipn k dq) with (46 :: skipn k dq).
+        rewrite parse_decimal_frac; [|exact Hf|exact Hs|rewrite firstn_skipn, Edq; discriminate].
+        rewrite firstn_skipn, Hlen. reflexivity. }
+      split; [exact Hd|]. rewrite Hv. split; [exact Hq|].
+      unfold dec_fraction. replace (0 <=? - j) with false by (symmetry; apply Z.leb_gt; lia).
+      rewrite Z.opp_involutive. lia.
+    + apply Z.ltb_ge in Ejn. set (z := zeros (Z.to_nat (j - Z.of_nat (length dq)))).
+      exists ([48] ++ z ++ dq), (- j), 48, ([46] ++ z ++ dq).
+      split; [reflexivity|]. split; [unfold digit; lia|].
+      assert (Hz : Forall digit (z ++ dq)) by (apply Forall_app; split; [apply zeros_digit|exact Hd]).
+      assert (Hlen : Z.of_nat (length (z ++ dq)) = j).
+      { rewrite app_length. subst z. rewrite zeros_length. lia. }
+      split.
+      { change ([48; 46] ++ z ++ dq) with ([48] ++ 46 :: (z ++ dq)).
+        rewrite parse_decimal_frac; [|constructor; [unfold digit; lia|constructor]|exact Hz|discriminate].
+        rewrite Hlen. reflexivity. }
+      split; [constructor; [unfold digit; lia|exact Hz]|].
+      assert (Hval : digits_val 0 ([48] ++ z ++ dq) = q).
+      { cbn [app digits_val]. change (0 * 10 + (48 - 48)) with 0. rewrite digits_val_app. subst z.
+        rewrite digits_val_zeros. rewrite Z.mul_0_l. exact Hv. }
+      rewrite Hval. split; [exact Hq|].
+      unfold dec_fraction. replace (0 <=? - j) with false by (symmetry; apply Z.leb_gt; lia).
+      rewrite Z.opp_involutive. lia.
+Qed.
+
+(* ------------------------------------------------------------------ F64.interval / in_interval *)
+
+(* in_round_interval depends only on the value a/b *)
+Lemma in_round_interval_ext m e a b a' b' :
+  0 < b -> 0 < b' -> a * b' = a' * b -> in_round_interval m e a b -> in_round_interval m e a' b'.
+Proof.
+  intros Hb Hb' Heq. unfold in_round_interval. cbv zeta.
+  set (C := 2 ^ 1076). set (P := 2 ^ (e + 1074)). set (L := lo4 m e * P). set (H := (4 * Z.pos m + 2) * P).
+  assert (Tle : forall X, X * b <= a * C -> X * b' <= a' * C).
+  { intros X HX. apply (Z.mul_le_mono_pos_r _ _ b Hb).
+    replace (a' * C * b) with (a * C * b') by (rewrite <- (Z.mul_assoc a' C b), (Z.mul_comm C b), Z.mul_assoc, <- Heq; ring).
+    replace (X * b' * b) with (X * b * b') by ring. apply Z.mul_le_mono_nonneg_r; lia. }
+  assert (Tge : forall X, a * C <= X * b -> a' * C <= X * b').
+  { intros X HX. apply (Z.mul_le_mono_pos_r _ _ b Hb).
+    replace (a' * C * b) with (a * C * b') by (rewrite <- (Z.mul_assoc a' C b), (Z.mul_comm C b), Z.mul_assoc, <- Heq; ring).
+    replace (X * b' * b) with (X * b * b') by ring. apply Z.mul_le_mono_nonneg_r; lia. }
+  assert (Tlt : forall X, X * b < a * C -> X * b' < a' * C).
+  { intros X HX. apply (Z.mul_lt_mono_pos_r b _ _ Hb).
+    replace (a' * C * b) with (a * C * b') by (rewrite <- (Z.mul_assoc a' C b), (Z.mul_comm C b), Z.mul_assoc, <- Heq; ring).
+    replace (X * b' * b) with (X * b * b') by ring. apply Z.mul_lt_mono_pos_r; lia. }
+  assert (Tgt : forall X, a * C < X * b -> a' * C < X * b').
+  { intros X HX. apply (Z.mul_lt_mono_pos_r b _ _ Hb).
+    replace (a' * C * b) with (a * C * b') by (rewrite <- (Z.mul_assoc a' C b), (Z.mul_comm C b), Z.mul_assoc, <- Heq; ring).
+    replace (X * b' * b) with (X * b * b') by ring. apply Z.mul_lt_mono_pos_r; lia. }
+  destruct (Z.even (Z.pos m)); intros [H1 H2]; split; auto.
+Qed.
+
+(* comparisons survive multiplication of both sides by positive factors *)
+Lemma cmp_transfer_le X Y X' Y' k1 k2 :
+  0 < k1 -> 0 < k2 -> X * k1 = X' * k2 -> Y * k1 = Y' * k2 -> (X <= Y <-> X' <= Y').
+Proof.
+  intros H1 H2 EX EY. rewrite (Z.mul_le_mono_pos_r X Y k1 H1), EX, EY, <- (Z.mul_le_mono_pos_r X' Y' k2 H2). tauto.
+Qed.
+
+Lemma cmp_transfer_lt X Y X' Y' k1 k2 :
+  0 < k1 -> 0 < k2 -> X * k1 = X' * k2 -> Y * k1 = Y' * k2 -> (X < Y <-> X' < Y').
+Proof.
+  intros H1 H2 EX EY. rewrite (Z.mul_lt_mono_pos_r k1 X Y H1), EX, EY, <- (Z.mul_lt_mono_pos_r k2 X' Y' H2). tauto.
+Qed.
+
+(* F64.in_interval (F64.interval m e) is that set *)
+Lemma in_interval_round_iff m e cn cd :
+  -1074 <= e -> 0 < cd ->
+  (in_interval (interval m e) cn cd = true <-> in_round_interval m e cn cd).
+Proof.
+  intros He Hcd. unfold interval, in_round_interval, lo4. cbv zeta.
+  set (mz := Z.pos m). set (bd := (mz =? 2 ^ 52) && (-1074 <? e)).
+  set (lo := if bd then 4 * mz - 1 else 4 * mz - 2). set (hi := 4 * mz + 2).
+  pose proof (pow2_pos 1076 ltac:(lia)) as HC. set (C := 2 ^ 1076) in *.
+  pose proof (pow2_pos (e + 1074) ltac:(lia)) as HP. set (P := 2 ^ (e + 1074)) in *.
+  destruct (0 <=? e - 2) eqn:Ee.
+  - apply Z.leb_le in Ee. pose proof (pow2_pos (e - 2) Ee) as HQ.
+    assert (EP : P = 2 ^ (e - 2) * C).
+    { subst P C. replace (e + 1074) with ((e - 2) + 1076) by lia. rewrite pow2_add by lia. reflexivity. }
+    set (Q := 2 ^ (e - 2)) in *. unfold in_interval.
+    assert (L1 : forall x, (x * Q * cd <= cn * 1 <-> x * P * cd <= cn * C)).
+    { intros x. apply (cmp_transfer_le _ _ _ _ C 1); [lia|lia|rewrite EP; ring|ring]. }
+    assert (L2 : forall x, (cn * 1 <= x * Q * cd <-> cn * C <= x * P * cd)).
+    { intros x. apply (cmp_transfer_le _ _ _ _ C 1); [lia|lia|ring|rewrite EP; ring]. }
+    assert (L3 : forall x, (x * Q * cd < cn * 1 <-> x * P * cd < cn * C)).
+    { intros x. apply (cmp_transfer_lt _ _ _ _ C 1); [lia|lia|rewrite EP; ring|ring]. }
+    assert (L4 : forall x, (cn * 1 < x * Q * cd <-> cn * C < x * P * cd)).
+    { intros x. apply (cmp_transfer_lt _ _ _ _ C 1); [lia|lia|ring|rewrite EP; ring]. }
+    destruct (Z.even mz); rewrite andb_true_iff.
+    + rewrite !Z.leb_le, L1, L2. tauto.
+    + rewrite !Z.ltb_lt, L3, L4. tauto.
+  - apply Z.leb_gt in Ee. pose proof (pow2_pos (- (e - 2)) ltac:(lia)) as HQ.
+    assert (EP : 2 ^ (- (e - 2)) * P = C).
+    { subst P C. rewrite <- pow2_add by lia. f_equal. lia. }
+    set (Q := 2 ^ (- (e - 2))) in *. unfold in_interval.
+    assert (L1 : forall x, (x * cd <= cn * Q <-> x * P * cd <= cn * C)).
+    { intros x. apply (cmp_transfer_le _ _ _ _ P 1); [lia|lia|ring|rewrite <- EP; ring]. }
+    assert (L2 : forall x, (cn * Q <= x * cd <-> cn * C <= x * P * cd)).
+    { intros x. apply (cmp_transfer_le _ _ _ _ P 1); [lia|lia|rewrite <- EP; ring|ring]. }
+    assert (L3 : forall x, (x * cd < cn * Q <-> x * P * cd < cn * C)).
+    { intros x. apply (cmp_transfer_lt _ _ _ _ P 1); [lia|lia|ring|rewrite <- EP; ring]. }
+    assert (L4 : forall x, (cn * Q < x * cd <-> cn * C < x * P * cd)).
+    { intros x. apply (cmp_transfer_lt _ _ _ _ P 1); [lia|lia|rewrite <- EP; ring|ring]. }
+    destruct (Z.even mz); rewrite andb_true_iff.
+    + rewrite !Z.leb_le, L1, L2. tauto.
+    + rewrite !Z.ltb_lt, L3, L4. tauto.
+Qed.
+
+Lemma in_interval_round m e cn cd :
+  -1074 <= e -> 0 < cd ->
+  in_interval (interval m e) cn cd = true -> in_round_interval m e cn cd.
+Proof. intros He Hcd. apply in_interval_round_iff; assumption. Qed.
+
+(* anything in the rounding interval is positive *)
+Lemma in_round_interval_pos m e a b : -1074 <= e -> 0 < b -> in_round_interval m e a b -> 0 < a.
+Proof.
+  intros He Hb. unfold in_round_interval, lo4. cbv zeta.
+  pose proof (pow2_pos (e + 1074) ltac:(lia)) as HP. pose proof (pow2_pos 1076 ltac:(lia)) as HC.
+  set (P := 2 ^ (e + 1074)) in *. set (C := 2 ^ 1076) in *.
+  assert (Hl : 0 < (if (Z.pos m =? 2 ^ 52) && (-1074 <? e) then 4 * Z.pos m - 1 else 4 * Z.pos m - 2) * P * b).
+  { destruct ((Z.pos m =? 2 ^ 52) && (-1074 <? e)); apply Z.mul_pos_pos; try lia; apply Z.mul_pos_pos; lia. }
+  destruct (Z.even (Z.pos m)); intros [H1 _]; nia.
+Qed.
+
+(* ------------------------------------------------------------------ strip_zeros keeps the value *)
+
+Lemma cand_pos q j : 0 < q -> 0 < fst (cand q j) /\ 0 < snd (cand q j).
+Proof.
+  intros Hq. unfold cand. destruct (0 <=? j) eqn:Ej; cbn [fst snd].
+  - apply Z.leb_le in Ej. split; [exact Hq|apply pow10_pos; exact Ej].
+  - apply Z.leb_gt in Ej. pose proof (pow10_pos (- j) ltac:(lia)). split; [nia|lia].
+Qed.
+
+Lemma cand_div10 q j :
+  q mod 10 = 0 ->
+  fst (cand q j) * snd (cand (q / 10) (j - 1)) = fst (cand (q / 10) (j - 1)) * snd (cand q j).
+Proof.
+  intros Hm. assert (Hq : q = 10 * (q / 10)) by (pose proof (Z.div_mod q 10 ltac:(lia)); lia).
+  set (q' := q / 10) in *. unfold cand.
+  destruct (0 <=? j) eqn:Ej; destruct (0 <=? j - 1) eqn:Ej1; cbn [fst snd];
+    try apply Z.leb_le in Ej; try apply Z.leb_gt in Ej; try apply Z.leb_le in Ej1; try apply Z.leb_gt in Ej1; try lia.
+  - replace j with ((j - 1) + 1) at 2 by lia. rewrite pow10_succ by lia. rewrite Hq. ring.
+  - assert (j = 0) by lia. subst j. change (10 ^ 0) with 1. change (10 ^ (- (0 - 1))) with 10. lia.
+  - replace (- (j - 1)) with ((- j) + 1) by lia. rewrite pow10_succ by lia. rewrite Hq. ring.
+Qed.
+
+Lemma strip_zeros_spec : forall f q j,
+  0 < q ->
+  let '(q', j') := strip_zeros f q j in
+  0 < q' /\ fst (cand q j) * snd (cand q' j') = fst (cand q' j') * snd (cand q j).
+Proof.
+  induction f as [|f IH]; intros q j Hq; cbn [strip_zeros]; [split; [exact Hq|reflexivity]|].
+  destruct ((q mod 10 =? 0) && (0 <? q)) eqn:E; [|split; [exact Hq|reflexivity]].
+  apply andb_true_iff in E as [Em _]. apply Z.eqb_eq in Em.
+  assert (Hq' : 0 < q / 10).
+  { pose proof (Z.div_mod q 10 ltac:(lia)). destruct (Z.lt_ge_cases 0 (q / 10)); [assumption|lia]. }
+  specialize (IH (q / 10) (j - 1) Hq'). destruct (strip_zeros f (q / 10) (j - 1)) as [q' j'].
+  destruct IH as [Hp Heq]. split; [exact Hp|].
+  pose proof (cand_div10 q j Em) as H1.
+  destruct (cand_pos q j Hq) as [A1 A2]. destruct (cand_pos (q / 10) (j - 1) Hq') as [B1 B2].
+  destruct (cand_pos q' j' Hp) as [C1 C2].
+  set (a := fst (cand q j)) in *. set (b := snd (cand q j)) in *.
+  set (c := fst (cand (q / 10) (j - 1))) in *. set (d := snd (cand (q / 10) (j - 1))) in *.
+  set (x := fst (cand q' j')) in *. set (y := snd (cand q' j')) in *.
+  (* a d = c b, c y = x d  ==>  a y = x b *)
+  apply (Z.mul_reg_r _ _ d); [lia|].
+  replace (a * y * d) with (a * d * y) by ring. rewrite H1.
+  replace (c * b * y) with (c * y * b) by ring. rewrite Heq. ring.
+Qed.
+
+(* ------------------------------------------------------------------ the round trip, given that the
+   digits chosen by F64.shortest lie in the rounding interval *)
+
+Lemma to_number_signed_plain (s : bool) q j :
+  0 < q ->
+  exists a b, 0 < a /\ 0 < b /\ a * snd (cand q j) = fst (cand q j) * b /\
+  to_number ((if s then [45] else []) ++ plain q j) = round_q s a b.
+Proof.
+  intros Hq. destruct (parse_plain q j Hq) as (ds & e & c & t & Ec & Hc & Hp & Hd & Hw & Hfrac).
+  destruct (dec_fraction (digits_val 0 ds) e) as [a b] eqn:Edf. destruct (cand q j) as [cn cd] eqn:Ecd.
+  destruct Hfrac as (Ha & Hb & Heq). exists a, b. split; [exact Ha|]. split; [exact Hb|]. split; [exact Heq|].
+  assert (Hbody : forall neg, match parse_decimal (plain q j) with
+                              | Some (ds, e) => Some (round_dec neg ds e)
+                              | None => if is_inf_text (plain q j) then Some (S754_infinity neg)
+                                        else if is_nan_text (plain q j) then Some S754_nan else None
+                              end = Some (round_q neg a b)).
+  { intros neg. rewrite Hp. rewrite (round_dec_exact neg ds e Hd). unfold exact_round.
+    replace (digits_val 0 ds =? 0) with false by (symmetry; apply Z.eqb_neq; lia). rewrite Edf. reflexivity. }
+  unfold to_number, parse_f64. unfold digit in Hc. destruct s; cbn [app].
+  - cbn [Z.eqb Pos.eqb orb]. rewrite Ec at 1. rewrite Hbody. reflexivity.
+  - rewrite Ec at 1. cbv iota beta.
+    replace (c =? 45) with false by (symmetry; apply Z.eqb_neq; lia).
+    replace (c =? 43) with false by (symmetry; apply Z.eqb_neq; lia). cbn [orb].
+    rewrite Ec at 1. cbv iota beta. rewrite Hbody. reflexivity.
+Qed.
+
+Definition fmt_digits (m : positive) (e : Z) : Z * Z :=
+  let '(a, b) := if 0 <=? e then (Zpos m * 2 ^ e, 1) else (Zpos m, 2 ^ (- e)) in
+  let l2 := Z.log2 (Zpos m) + e in
+  let k0 := (l2 * 30103) / 100000 + 2 in
+  let k10 := log10_down 8%nat a b k0 in
+  shortest 17%nat 1 a b k10 (interval m e).
+
+Lemma fmt_pos_digits m e :
+  fmt_pos m e = let '(q, j) := fmt_digits m e in let '(q', j') := strip_zeros 20%nat q j in plain q' j'.
+Proof. unfold fmt_pos, fmt_digits. destruct (0 <=? e); reflexivity. Qed.
+
+Theorem roundtrip_finite_if : forall s m e,
+  valid (S754_finite s m e) ->
+  (let '(q, j) := fmt_digits m e in 0 < q /\ in_interval (interval m e) (fst (cand q j)) (snd (cand q j)) = true) ->
+  to_number (fmt (S754_finite s m e)) = S754_finite s m e.
+Proof.
+  intros s m e Hv Hin. cbn [fmt]. rewrite fmt_pos_digits.
+  destruct (fmt_digits m e) as [q j]. destruct Hin as [Hq Hin].
+  pose proof (strip_zeros_spec 20%nat q j Hq) as Hs. destruct (strip_zeros 20%nat q j) as [q' j'].
+  destruct Hs as [Hq' Heq].
+  destruct (to_number_signed_plain s q' j' Hq') as (a & b & Ha & Hb & Hab & ->).
+  assert (He : -1074 <= e) by (cbn [valid] in Hv; lia).
+  destruct (cand_pos q j Hq) as [A1 A2]. destruct (cand_pos q' j' Hq') as [B1 B2].
+  apply round_q_interval; [exact Ha|exact Hb|exact Hv|].
+  apply (in_round_interval_ext m e (fst (cand q' j')) (snd (cand q' j'))); [exact B2|exact Hb|lia|].
+  apply (in_round_interval_ext m e (fst (cand q j)) (snd (cand q j))); [exact A2|exact B2|exact Heq|].
+  apply in_interval_round; [exact He|exact A2|exact Hin].
+Qed.
+
+(* ------------------------------------------------------------------ F64.shortest ends inside the interval *)
+
+Definition fmt_frac (m : positive) (e : Z) : Z * Z :=
+  if 0 <=? e then (Zpos m * 2 ^ e, 1) else (Zpos m, 2 ^ (- e)).
+
+(* the value m*2^e in the integer units of in_round_interval *)
+Lemma fmt_frac_units m e :
+  -1074 <= e ->
+  let '(a, b) := fmt_frac m e in
+  0 < a /\ 0 < b /\ a * 2 ^ 1076 = 4 * Zpos m * 2 ^ (e + 1074) * b.
+Proof.
+  intros He. unfold fmt_frac. destruct (0 <=? e) eqn:Ee.
+  - apply Z.leb_le in Ee. pose proof (pow2_pos e Ee). split; [nia|]. split; [lia|].
+    replace (e + 1074) with (e + 1074) by lia. rewrite p1076.
+    rewrite (pow2_add e 1074) by lia. ring.
+  - apply Z.leb_gt in Ee. pose proof (pow2_pos (- e) ltac:(lia)). split; [lia|]. split; [lia|].
+    rewrite p1076. replace (2 ^ 1074) with (2 ^ (e + 1074) * 2 ^ (- e)) by (rewrite <- pow2_add by lia; f_equal; lia). ring.
+Qed.
+
+Definition scaled_cand_ok (m : positive) (e j a b : Z) : Prop :=
+  let '(sa, sb) := pow10_scale a b j in
+  0 < sa /\ 0 < sb /\
+  forall q, let '(cn, cd) := cand q j in
+    0 < cd /\
+    (forall x, x * 2 ^ (e + 1074) * cd <= cn * 2 ^ 1076 <-> x * sa <= 4 * Zpos m * q * sb) /\
+    (forall x, cn * 2 ^ 1076 <= x * 2 ^ (e + 1074) * cd <-> 4 * Zpos m * q * sb <= x * sa) /\
+    (forall x, x * 2 ^ (e + 1074) * cd < cn * 2 ^ 1076 <-> x * sa < 4 * Zpos m * q * sb) /\
+    (forall x, cn * 2 ^ 1076 < x * 2 ^ (e + 1074) * cd <-> 4 * Zpos m * q * sb < x * sa).
+
+Lemma scaled_cand m e j a b :
+  -1074 <= e -> 0 < a -> 0 < b -> a * 2 ^ 1076 = 4 * Zpos m * 2 ^ (e + 1074) * b ->
+  scaled_cand_ok m e j a b.
+Proof.
+  intros He Ha Hb F0. unfold scaled_cand_ok, pow10_scale, cand.
+  pose proof (pow2_pos 1076 ltac:(lia)) as HC. set (C := 2 ^ 1076) in *.
+  pose proof (pow2_pos (e + 1074) ltac:(lia)) as HP. set (P := 2 ^ (e + 1074)) in *.
+  set (mz := Z.pos m) in *.
+  destruct (0 <=? j) eqn:Ej.
+  - apply Z.leb_le in Ej. pose proof (pow10_pos j Ej) as HT. set (T := 10 ^ j) in *.
+    split; [nia|]. split; [exact Hb|]. intros q. split; [exact HT|].
+    assert (K1 : 0 < a * T * b) by nia. assert (K2 : 0 < P * T * b) by nia.
+    assert (EY : q * C * (a * T * b) = 4 * mz * q * b * (P * T * b)).
+    { replace (q * C * (a * T * b)) with (a * C * (q * T * b)) by ring. rewrite F0. ring. }
+    split; [|split; [|split]]; intros x.
+    + apply (cmp_transfer_le _ _ _ _ (a * T * b) (P * T * b) K1 K2); [ring|exact EY].
+    + apply (cmp_transfer_le _ _ _ _ (a * T * b) (P * T * b) K1 K2); [exact EY|ring].
+    + apply (cmp_transfer_lt _ _ _ _ (a * T * b) (P * T * b) K1 K2); [ring|exact EY].
+    + apply (cmp_transfer_lt _ _ _ _ (a * T * b) (P * T * b) K1 K2); [exact EY|ring].
+  - apply Z.leb_gt in Ej. pose proof (pow10_pos (- j) ltac:(lia)) as HT. set (T := 10 ^ (- j)) in *.
+    split; [exact Ha|]. split; [nia|]. intros q. split; [lia|].
+    assert (K1 : 0 < a * b) by nia. assert (K2 : 0 < P * b) by nia.
+    assert (EY : q * T * C * (a * b) = 4 * mz * q * (b * T) * (P * b)).
+    { replace (q * T * C * (a * b)) with (a * C * (q * T * b)) by ring. rewrite F0. ring. }
+    split; [|split; [|split]]; intros x.
+    + apply (cmp_transfer_le _ _ _ _ (a * b) (P * b) K1 K2); [ring|exact EY].
+    + apply (cmp_transfer_le _ _ _ _ (a * b) (P * b) K1 K2); [exact EY|ring].
+    + apply (cmp_transfer_lt _ _ _ _ (a * b) (P * b) K1 K2); [ring|exact EY].
+    + apply (cmp_transfer_lt _ _ _ _ (a * b) (P * b) K1 K2); [exact EY|ring].
+Qed.
+
+(* 10^k <= a/b, as F64.log10_down tests it *)
+Definition p10le (a b k : Z) : Prop := if 0 <=? k then b * 10 ^ k <= a else b <= a * 10 ^ (- k).
+
+Lemma log10_down_le a b : forall fuel k,
+  p10le a b (k - Z.of_nat fuel) -> p10le a b (log10_down fuel a b k).
+Proof.
+  induction fuel as [|f IH]; intros k H; cbn [log10_down].
+  - replace (k - Z.of_nat 0) with k in H by lia. exact H.
+  - destruct (if 0 <=? k then b * 10 ^ k <=? a else b <=? a * 10 ^ (- k)) eqn:E.
+    + unfold p10le. destruct (0 <=? k); apply Z.leb_le in E; exact E.
+    + apply IH. replace (k - 1 - Z.of_nat f) with (k - Z.of_nat (S f)) by lia. exact H.
+Qed.
+
+(* with 17 digits the grid is finer than the interval: 10^16 * sb <= sa *)
+Lemma scaled_at_17 a b k10 :
+  0 < a -> 0 < b -> p10le a b k10 ->
+  let '(sa, sb) := pow10_scale a b (16 - k10) in 10 ^ 16 * sb <= sa.
+Proof.
+  intros Ha Hb H. unfold p10le in H. unfold pow10_scale.
+  destruct (0 <=? 16 - k10) eqn:Ej.
+  - apply Z.leb_le in Ej. destruct (0 <=? k10) eqn:Ek.
+    + apply Z.leb_le in Ek. replace 16 with (k10 + (16 - k10)) at 1 by lia. rewrite pow10_add by lia.
+      pose proof (pow10_pos (16 - k10) Ej). nia.
+    + apply Z.leb_gt in Ek. replace (16 - k10) with (16 + - k10) by lia. rewrite pow10_add by lia.
+      pose proof (pow10_pos 16 ltac:(lia)). nia.
+  - apply Z.leb_gt in Ej. replace (0 <=? k10) with true in H by (symmetry; apply Z.leb_le; lia).
+    replace k10 with (16 + - (16 - k10)) in H by lia. rewrite pow10_add in H by lia. lia.
+Qed.
+
+Lemma hi_lo_gap : 3 * 10 ^ 16 > 4 * 2 ^ 52 /\ 10 ^ 16 > 2 ^ 53.
+Proof. split; reflexivity. Qed.
+
+(* at precision 17 one of the two neighbouring 17-digit decimals is inside *)
+Lemma step_17 m e k10 :
+  valid (S754_finite false m e) ->
+  let '(a, b) := fmt_frac m e in
+  p10le a b k10 ->
+  let j := 16 - k10 in
+  let '(sa, sb) := pow10_scale a b j in
+  let q0 := sa / sb in
+  (let '(cn, cd) := cand q0 j in in_interval (interval m e) cn cd) ||
+  (let '(cn, cd) := cand (q0 + 1) j in in_interval (interval m e) cn cd) = true.
+Proof.
+  intros Hv. cbn [valid] in Hv. assert (He : -1074 <= e) by lia.
+  pose proof (fmt_frac_units m e He) as HF. destruct (fmt_frac m e) as [a b]. destruct HF as (Ha & Hb & F0).
+  intros Hk. cbv zeta.
+  pose proof (scaled_cand m e (16 - k10) a b He Ha Hb F0) as HS. unfold scaled_cand_ok in HS.
+  pose proof (scaled_at_17 a b k10 Ha Hb Hk) as H17.
+  destruct (pow10_scale a b (16 - k10)) as [sa sb]. destruct HS as (Hsa & Hsb & HS).
+  set (q0 := sa / sb).
+  pose proof (Z.div_mod sa sb ltac:(lia)) as Hdm. pose proof (Z.mod_pos_bound sa sb Hsb) as Hmb. fold q0 in Hdm.
+  assert (Hq0 : sb * q0 <= sa < sb * (q0 + 1)) by lia.
+  pose proof (HS q0) as H0. pose proof (HS (q0 + 1)) as H1.
+  destruct (cand q0 (16 - k10)) as [cn0 cd0]. destruct (cand (q0 + 1) (16 - k10)) as [cn1 cd1].
+  destruct H0 as (Hcd0 & A1 & A2 & A3 & A4). destruct H1 as (Hcd1 & B1 & B2 & B3 & B4).
+  destruct (in_interval (interval m e) cn0 cd0) eqn:I0; [reflexivity|].
+  destruct (in_interval (interval m e) cn1 cd1) eqn:I1; [reflexivity|]. exfalso.
+  assert (N0 : ~ in_round_interval m e cn0 cd0).
+  { intros H. apply (in_interval_round_iff m e cn0 cd0 He Hcd0) in H. congruence. }
+  assert (N1 : ~ in_round_interval m e cn1 cd1).
+  { intros H. apply (in_interval_round_iff m e cn1 cd1 He Hcd1) in H. congruence. }
+  unfold in_round_interval, lo4 in N0, N1. cbv zeta in N0, N1.
+  rewrite p52, p53 in *. destruct hi_lo_gap as [G1 G2]. rewrite p52 in G1. rewrite p53 in G2.
+  set (mz := Z.pos m) in *. set (T := 10 ^ 16) in *.
+  set (lo := if (mz =? 4503599627370496) && (-1074 <? e) then 4 * mz - 1 else 4 * mz - 2) in *.
+  assert (Hlo : 4 * mz - 2 <= lo < 4 * mz /\ (lo = 4 * mz - 1 -> mz = 4503599627370496)).
+  { subst lo. destruct (mz =? 4503599627370496) eqn:Em; cbn [andb].
+    - apply Z.eqb_eq in Em. destruct (-1074 <? e); lia.
+    - lia. }
+  assert (Hmz : 0 < mz < 9007199254740992) by (subst mz; lia).
+  (* the far sides hold by themselves *)
+  assert (U0 : 4 * mz * q0 * sb <= (4 * mz + 2) * sa) by nia.
+  assert (U0' : 4 * mz * q0 * sb < (4 * mz + 2) * sa) by nia.
+  assert (L1 : lo * sa <= 4 * mz * (q0 + 1) * sb) by nia.
+  assert (L1' : lo * sa < 4 * mz * (q0 + 1) * sb) by nia.
+  destruct (Z.even mz).
+  - assert (X0 : ~ lo * sa <= 4 * mz * q0 * sb).
+    { intros H. apply N0. split; [apply A1; exact H|apply A2; exact U0]. }
+    assert (X1 : ~ 4 * mz * (q0 + 1) * sb <= (4 * mz + 2) * sa).
+    { intros H. apply N1. split; [apply B1; exact L1|apply B2; exact H]. }
+    nia.
+  - assert (X0 : ~ lo * sa < 4 * mz * q0 * sb).
+    { intros H. apply N0. split; [apply A3; exact H|apply A4; exact U0']. }
+    assert (X1 : ~ 4 * mz * (q0 + 1) * sb < (4 * mz + 2) * sa).
+    { intros H. apply N1. split; [apply B3; exact L1'|apply B4; exact H]. }
+    nia.
+Qed.
+
+Lemma shortest_S f p a b k10 iv :
+  shortest (S f) p a b k10 iv =
+  (let j := p - 1 - k10 in
+   let '(sa, sb) := pow10_scale a b j in
+   let q0 := sa / sb in
+   let r := sa mod sb in
+   let in0 := let '(cn, cd) := cand q0 j in in_interval iv cn cd in
+   let in1 := let '(cn, cd) := cand (q0 + 1) j in in_interval iv cn cd in
+   let up := sb <=? 2 * r in
+   if in0 && in1 then (if up then q0 + 1 else q0, j)
+   else if in0 then (q0, j)
+   else if in1 then (q0 + 1, j)
+   else shortest f (p + 1) a b k10 iv).
+Proof. cbn [shortest]. cbv zeta. destruct (pow10_scale a b (p - 1 - k10)). reflexivity. Qed.
+
+(* whenever the search has a precision at which a neighbour is inside before the fuel ends, it
+   returns digits inside the interval *)
+Lemma shortest_ok a b k10 iv : forall fuel p,
+  (1 <= fuel)%nat ->
+  (let j := (p + Z.of_nat fuel - 1) - 1 - k10 in
+   let '(sa, sb) := pow10_scale a b j in
+   let q0 := sa / sb in
+   (let '(cn, cd) := cand q0 j in in_interval iv cn cd) ||
+   (let '(cn, cd) := cand (q0 + 1) j in in_interval iv cn cd) = true) ->
+  let '(q, j) := shortest fuel p a b k10 iv in
+  (let '(cn, cd) := cand q j in in_interval iv cn cd) = true.
+Proof.
+  induction fuel as [|f IH]; intros p Hf H; [lia|].
+  rewrite shortest_S. cbv zeta.
+  destruct (pow10_scale a b (p - 1 - k10)) as [sa sb] eqn:Eps.
+  set (q0 := sa / sb).
+  destruct (let '(cn, cd) := cand q0 (p - 1 - k10) in in_interval iv cn cd) eqn:I0;
+  destruct (let '(cn, cd) := cand (q0 + 1) (p - 1 - k10) in in_interval iv cn cd) eqn:I1; cbn [andb].
+  - destruct (sb <=? 2 * (sa mod sb)); assumption.
+  - exact I0.
+  - exact I1.
+  - destruct f as [|f'].
+    + exfalso. cbv zeta in H. replace (p + Z.of_nat 1 - 1 - 1 - k10) with (p - 1 - k10) in H by lia.
+      rewrite Eps in H. fold q0 in H. rewrite I0, I1 in H. discriminate.
+    + apply IH; [lia|]. replace (p + 1 + Z.of_nat (S f') - 1) with (p + Z.of_nat (S (S f')) - 1) by lia. exact H.
+Qed.
+
+(* the starting estimate of log10 is never more than 8 above: 10^(k0 - 8) <= 2^l2 for every
+   binary exponent of a finite double *)
+Definition k0_of (l2 : Z) : Z := (l2 * 30103) / 100000 + 2.
+Definition k0_low_ok (l2 : Z) : bool :=
+  let k := k0_of l2 - 8 in
+  let '(pa, pb) := if 0 <=? l2 then (2 ^ l2, 1) else (1, 2 ^ (- l2)) in
+  if 0 <=? k then pb * 10 ^ k <=? pa else pb <=? pa * 10 ^ (- k).
+Definition l2_range : list Z := map (fun i => Z.of_nat i - 1074) (seq 0 2098).
+
+Lemma k0_low_sweep : forallb k0_low_ok l2_range = true.
+Proof. vm_compute. reflexivity. Qed.
+
+Lemma k0_low l2 : -1074 <= l2 <= 1023 -> k0_low_ok l2 = true.
+Proof.
+  intros H. pose proof k0_low_sweep as S. rewrite forallb_forall in S. apply S.
+  unfold l2_range. apply in_map_iff. exists (Z.to_nat (l2 + 1074)). split; [lia|].
+  apply in_seq. lia.
+Qed.
+
+Lemma fmt_k10_le m e :
+  valid (S754_finite false m e) ->
+  let '(a, b) := fmt_frac m e in
+  p10le a b (log10_down 8%nat a b (k0_of (Z.log2 (Zpos m) + e))).
+Proof.
+  intros Hv. cbn [valid] in Hv. rewrite p52, p53 in Hv.
+  pose proof (Z.log2_spec (Z.pos m) ltac:(lia)) as [L1 L2]. pose proof (Z.log2_nonneg (Z.pos m)) as L0.
+  assert (Hl52 : Z.log2 (Z.pos m) <= 52).
+  { destruct (Z.le_gt_cases (Z.log2 (Z.pos m)) 52) as [H|H]; [exact H|exfalso].
+    assert (2 ^ 53 <= 2 ^ Z.log2 (Z.pos m)) by (apply pow2_le_mono; lia). rewrite p53 in *. lia. }
+  set (lm := Z.log2 (Z.pos m)) in *. set (l2 := lm + e).
+  assert (Hl2 : -1074 <= l2 <= 1023) by (subst l2; lia).
+  pose proof (k0_low l2 Hl2) as Hk. unfold k0_low_ok in Hk.
+  unfold fmt_frac. set (k := k0_of l2 - 8) in *.
+  assert (Hgoal : p10le (fst (if 0 <=? e then (Z.pos m * 2 ^ e, 1) else (Z.pos m, 2 ^ (- e))))
+                        (snd (if 0 <=? e then (Z.pos m * 2 ^ e, 1) else (Z.pos m, 2 ^ (- e)))) k).
+  { unfold p10le.
+    destruct (0 <=? e) eqn:Ee; cbn [fst snd]; [apply Z.leb_le in Ee|apply Z.leb_gt in Ee].
+    - (* l2 >= 0 *)
+      replace (0 <=? l2) with true in Hk by (symmetry; apply Z.leb_le; lia).
+      assert (Hv2 : 2 ^ l2 <= Z.pos m * 2 ^ e).
+      { subst l2. rewrite pow2_add by lia. apply Z.mul_le_mono_nonneg_r; [pose proof (pow2_pos e Ee); lia|lia]. }
+      destruct (0 <=? k) eqn:Ek.
+      + apply Z.leb_le in Hk. lia.
+      + apply Z.leb_le in Hk. apply Z.leb_gt in Ek. pose proof (pow10_pos (- k) ltac:(lia)). nia.
+    - pose proof (pow2_pos (- e) ltac:(lia)) as HQ.
+      destruct (0 <=? l2) eqn:El; [apply Z.leb_le in El|apply Z.leb_gt in El].
+      + (* 2^l2 * 2^(-e) = 2^lm <= m *)
+        assert (Hv2 : 2 ^ l2 * 2 ^ (- e) <= Z.pos m).
+        { rewrite <- pow2_add by lia. replace (l2 + - e) with lm by (subst l2; lia). lia. }
+        destruct (0 <=? k) eqn:Ek.
+        * apply Z.leb_le in Hk. apply Z.leb_le in Ek. pose proof (pow10_pos k Ek). nia.
+        * apply Z.leb_le in Hk. apply Z.leb_gt in Ek. pose proof (pow10_pos (- k) ltac:(lia)). nia.
+      + (* 2^(-e) = 2^(-l2) * 2^lm *)
+        assert (Hv2 : 2 ^ (- e) <= 2 ^ (- l2) * Z.pos m).
+        { replace (- e) with (- l2 + lm) by (subst l2; lia). rewrite pow2_add by lia.
+          apply Z.mul_le_mono_nonneg_l; [pose proof (pow2_pos (- l2) ltac:(lia)); lia|lia]. }
+        pose proof (pow2_pos (- l2) ltac:(lia)) as HQ2.
+        destruct (0 <=? k) eqn:Ek.
+        * apply Z.leb_le in Hk. apply Z.leb_le in Ek. pose proof (pow10_pos k Ek). nia.
+        * apply Z.leb_le in Hk. apply Z.leb_gt in Ek. pose proof (pow10_pos (- k) ltac:(lia)). nia. }
+  destruct (0 <=? e); cbn [fst snd] in Hgoal; apply log10_down_le;
+    (replace (k0_of l2 - Z.of_nat 8) with k by (subst k; lia)); exact Hgoal.
+Qed.
+
+Theorem fmt_digits_in_interval : forall m e,
+  valid (S754_finite false m e) ->
+  let '(q, j) := fmt_digits m e in
+  0 < q /\ in_interval (interval m e) (fst (cand q j)) (snd (cand q j)) = true.
+Proof.
+  intros m e Hv. assert (He : -1074 <= e) by (cbn [valid] in Hv; lia).
+  unfold fmt_digits. change (if 0 <=? e then (Z.pos m * 2 ^ e, 1) else (Z.pos m, 2 ^ (- e))) with (fmt_frac m e).
+  pose proof (fmt_k10_le m e Hv) as Hk. pose proof (fmt_frac_units m e He) as HF.
+  destruct (fmt_frac m e) as [a b] eqn:Efr. destruct HF as (Ha & Hb & F0).
+  change (Z.log2 (Z.pos m) + e) with (Z.log2 (Z.pos m) + e) in *.
+  fold (k0_of (Z.log2 (Z.pos m) + e)).
+  set (k10 := log10_down 8 a b (k0_of (Z.log2 (Z.pos m) + e))) in *.
+  pose proof (step_17 m e k10 Hv) as H17. rewrite Efr in H17. specialize (H17 Hk). cbv zeta in H17.
+  pose proof (shortest_ok a b k10 (interval m e) 17%nat 1 ltac:(lia)) as Hs. cbv zeta in Hs.
+  replace (1 + Z.of_nat 17 - 1 - 1 - k10) with (16 - k10) in Hs by lia.
+  specialize (Hs H17). destruct (shortest 17 1 a b k10 (interval m e)) as [q j].
+  destruct (cand q j) as [cn cd] eqn:Ec. cbn [fst snd].
+  split; [|exact Hs].
+  assert (Hcd : 0 < cd).
+  { unfold cand in Ec. destruct (0 <=? j) eqn:Ej; inversion Ec; subst; [apply pow10_pos; apply Z.leb_le; exact Ej|lia]. }
+  pose proof (in_round_interval_pos m e cn cd He Hcd (in_interval_round m e cn cd He Hcd Hs)) as Hcn.
+  unfold cand in Ec. destruct (0 <=? j) eqn:Ej; inversion Ec; subst; [exact Hcn|].
+  apply Z.leb_gt in Ej. pose proof (pow10_pos (- j) ltac:(lia)). nia.
+Qed.
+
+(* Display then to_number is the identity on every binary64 value (NaN to NaN) *)
+Theorem parse_of_fmt_roundtrip : forall x, valid x -> to_number (fmt x) = x.
+Proof.
+  intros [s|s| |s m e] Hv.
+  - destruct s; reflexivity.
+  - destruct s; reflexivity.
+  - reflexivity.
+  - apply roundtrip_finite_if; [exact Hv|]. apply fmt_digits_in_interval. exact Hv.
+Qed.
+
+(* every byte string yields a canonical binary64; parse errors yield NaN *)
+Lemma digits_span s : Forall digit (fst (span_digits s)).
+Proof.
+  induction s as [|c t IH]; cbn [span_digits]; [constructor|].
+  destruct (is_digit c) eqn:E; [|constructor].
+  destruct (span_digits t) as [d r]. cbn [fst] in *. constructor; [apply is_digit_spec; exact E|exact IH].
+Qed.
+
+Lemma parse_decimal_digits s ds e : parse_decimal s = Some (ds, e) -> Forall digit ds.
+Proof.
+  unfold parse_decimal. pose proof (digits_span s) as H1.
+  destruct (span_digits s) as [ip r1]. cbn [fst] in H1.
+  assert (H2 : Forall digit (fst (match r1 with
+                                  | c :: t => if c =? 46 then span_digits t else ([], r1)
+                                  | [] => ([], r1)
+                                  end))).
+  { destruct r1 as [|c t]; [constructor|]. destruct (c =? 46); [apply digits_span|constructor]. }
+  destruct (match r1 with | c :: t => if c =? 46 then span_digits t else ([], r1) | [] => ([], r1) end) as [fp r2].
+  cbn [fst] in H2. assert (H3 : Forall digit (ip ++ fp)) by (apply Forall_app; split; assumption).
+  destruct (ip ++ fp) as [|d t] eqn:E; [discriminate|].
+  destruct r2 as [|c t2].
+  - intros H. inversion H; subst. exact H3.
+  - destruct ((c =? 101) || (c =? 69)); [|discriminate]. destruct (parse_exp t2); [|discriminate].
+    intros H. inversion H; subst. exact H3.
+Qed.
+
+Lemma exact_round_valid neg w e : 0 <= w -> valid (exact_round neg w e).
+Proof.
+  intros Hw. unfold exact_round. destruct (w =? 0) eqn:E; [exact I|]. apply Z.eqb_neq in E.
+  unfold dec_fraction. destruct (0 <=? e) eqn:Ee.
+  - apply Z.leb_le in Ee. apply round_q_valid; [pose proof (pow10_pos e Ee); nia|lia].
+  - apply Z.leb_gt in Ee. apply round_q_valid; [lia|apply pow10_pos; lia].
+Qed.
+
+Theorem to_number_valid : forall s, valid (to_number s).
+Proof.
+  intros s. unfold to_number, parse_f64. destruct s as [|c t]; [exact I|].
+  set (body := if (c =? 45) || (c =? 43) then t else c :: t). destruct body as [|c' t'] eqn:Eb; [exact I|].
+  destruct (parse_decimal (c' :: t')) as [[ds e]|] eqn:Ep.
+  - rewrite (round_dec_exact _ ds e (parse_decimal_digits _ ds e Ep)).
+    apply exact_round_valid. apply (digits_val_bound ds (parse_decimal_digits _ ds e Ep)).
+  - destruct (is_inf_text (c' :: t')); [exact I|]. destruct (is_nan_text (c' :: t')); exact I.
+Qed.
+
+(* the value of an accepted numeral is the correctly rounded decimal: digits ds scaled by 10^e *)
+Theorem to_number_decimal : forall sgn body ds e,
+  (sgn = [] \/ sgn = [43] \/ sgn = [45]) ->
+  (match body with c :: _ => c <> 43 /\ c <> 45 | [] => False end) ->
+  parse_decimal body = Some (ds, e) ->
+  to_number (sgn ++ body) =
+  exact_round (match sgn with [45] => true | _ => false end) (digits_val 0 ds) e.
+Proof.
+  intros sgn body ds e Hs Hb Hp. pose proof (parse_decimal_digits body ds e Hp) as Hd.
+  destruct body as [|c t]; [tauto|]. destruct Hb as [H43 H45].
+  unfold to_number, parse_f64.
+  destruct Hs as [->|[->| ->]]; cbn [app].
+  - replace (c =? 45) with false by (symmetry; apply Z.eqb_neq; exact H45).
+    replace (c =? 43) with false by (symmetry; apply Z.eqb_neq; exact H43). cbn [orb].
+    rewrite Hp. apply round_dec_exact. exact Hd.
+  - cbn [Z.eqb Pos.eqb orb]. rewrite Hp. apply round_dec_exact. exact Hd.
+  - cbn [Z.eqb Pos.eqb orb]. rewrite Hp. apply round_dec_exact. exact Hd.
+Qed.
+
+(* signs and zeros *)
+Theorem to_number_zero : forall sgn body ds e,
+  (sgn = [] \/ sgn = [43] \/ sgn = [45]) ->
+  (match body with c :: _ => c <> 43 /\ c <> 45 | [] => False end) ->
+  parse_decimal body = Some (ds, e) -> digits_val 0 ds = 0 ->
+  to_number (sgn ++ body) = S754_zero (match sgn with [45] => true | _ => false end).
+Proof.
+  intros sgn body ds e Hs Hb Hp Hz. rewrite (to_number_decimal sgn body ds e Hs Hb Hp).
+  unfold exact_round. rewrite Hz. reflexivity.
+Qed.
+
+Lemma round_q_sign neg a b : sign_of (round_q neg a b) = neg.
+Proof.
+  unfold round_q. destruct (scaled_rne a b _ =? 2 ^ 53).
+  - destruct (971 <? _); reflexivity.
+  - destruct (971 <? _); [reflexivity|]. destruct (scaled_rne a b _); reflexivity.
+Qed.
+
+Theorem to_number_sign : forall sgn body ds e,
+  (sgn = [] \/ sgn = [43] \/ sgn = [45]) ->
+  (match body with c :: _ => c <> 43 /\ c <> 45 | [] => False end) ->
+  parse_decimal body = Some (ds, e) ->
+  sign_of (to_number (sgn ++ body)) = (match sgn with [45] => true | _ => false end).
+Proof.
+  intros sgn body ds e Hs Hb Hp. rewrite (to_number_decimal sgn body ds e Hs Hb Hp).
+  unfold exact_round. destruct (digits_val 0 ds =? 0); [reflexivity|].
+  destruct (dec_fraction (digits_val 0 ds) e). apply round_q_sign.
+Qed.
+
+Theorem to_number_error : forall s, parse_f64 s = None -> to_number s = S754_nan.
+Proof. intros s H. unfold to_number. rewrite H. reflexivity. Qed.
+
+(* ------------------------------------------------------------------ cross-checks against SpecFloat *)
+
+(* round_q is this file's own rounding.  On operands that are exactly representable, IEEE division
+   (SpecFloat.SFdiv, correctly rounded by definition of the standard) must give the same double,
+   and on integers so must SpecFloat.binary_normalize: checked on a grid that contains ties,
+   mantissa carries, subnormal and overflowing quotients. *)
+Definition xs_small : list Z :=
+  [1; 2; 3; 5; 7; 9; 10; 11; 100; 1000; 12345; 99999; 123456789; 4503599627370495; 4503599627370496; 4503599627370497;
+   6004799503160661; 9007199254740989; 9007199254740991; 9007199254740992; 1125899906842624; 3002399751580331].
+Definition pow_shifts : list Z := [0; 1; 52; 53; 54; 100; 500; 969; 970; 971; 1021; 1022; 1023].
+
+Definition div_ok (a b : Z) : bool :=
+  Z.eqb (to_bits (round_q false a b)) (to_bits (fdiv (of_Z a) (of_Z b))).
+Definition int_ok (n : Z) : bool := Z.eqb (to_bits (round_q false n 1)) (to_bits (of_Z n)).
+
+Lemma round_q_vs_SFdiv :
+  forallb (fun a => forallb (fun b =>
+    forallb (fun k => div_ok (a * 2 ^ k) b && div_ok a (b * 2 ^ k)) pow_shifts) xs_small) xs_small = true.
+Proof. vm_compute. reflexivity. Qed.
+
+Lemma round_q_vs_binary_normalize :
+  forallb (fun a => forallb (fun k =>
+    int_ok (a * 2 ^ k) && int_ok (a * 2 ^ k + 1) && int_ok (a * 2 ^ k + 2 ^ (k / 2)) && int_ok (a * 10 ^ (k / 4))) pow_shifts) xs_small = true.
+Proof. vm_compute. reflexivity. Qed.
